@@ -2,9 +2,9 @@
    encoders written from the specification text; the theorems say that the model's parsers
    accept those encodings followed by arbitrary bytes, consume exactly the encoding and expose
    exactly the encoded field values. *)
-From Model Require Import Bytes Prim Tables Cert KAC Sig.
+From Model Require Import Bytes Prim Tables Cert KAC Mapping Sig LS RI.
 From Spec Require Import Wire SpecTables.
-From Proofs Require Import SpecProofs KacProofs.
+From Proofs Require Import SpecProofs KacProofs MapRT SpecRA.
 Open Scope Z_scope.
 
 Theorem C02_certificate : forall t payload r, (t < 256)%N -> (nlen payload < 65536)%N ->
@@ -49,6 +49,19 @@ Theorem C02_lease2 : forall gw tid e r, length gw = 32%nat ->
   read_lease2 (Wire.spec_lease2 gw tid e ++ r) = Ok (Wire.spec_lease2 gw tid e, r).
 Proof. exact spec_lease2_accepted. Qed.
 Print Assumptions C02_lease2.
+(* Mapping and RouterAddress: the specification's encoding of any options list with distinct
+   keys (strings up to 255 bytes, up to 1000 pairs, up to 65,535 bytes) is accepted, followed
+   by anything, and the parsed pairs are exactly the encoded ones, in the encoded order *)
+Theorem C02_mapping : forall opts r, opts_ok opts ->
+  exists sz e, read_mapping (spec_mapping opts ++ r) = Some (mkMap (Some sz) (Some (map wire_pair opts)), r, e) /\
+               fatal_errors e = [].
+Proof. exact spec_mapping_accepted. Qed.
+Theorem C02_router_address : forall cost date style opts r,
+  (cost < 256)%N -> (date < 2 ^ 64)%N -> (length style <= 255)%nat -> opts_ok opts ->
+  exists sz, read_router_address (spec_router_address cost date style opts ++ r) =
+    Ok (mkRA [cost] (be_encode 8 date) (istr style) (mkMap (Some sz) (Some (map wire_pair opts))), r).
+Proof. exact spec_router_address_accepted. Qed.
+Print Assumptions C02_router_address.
 Example C02_nonvacuous : exists k,
   read_keys_and_cert (spec_identity (repeatN 1 32) (repeatN 2 320) (repeatN 3 32) (spec_keycert 7 4 [9%N]) ++ [8%N]) = Ok (k, [8%N])
   /\ k_pad k = repeatN 2 320.
